@@ -132,9 +132,17 @@ def parse_type(t, params, names, known):
     raise Err(f"cannot classify type `{t}`")
 
 
-def find_structs(src, names):
+STRUCT_RE = r"(?:pub(?:\([^)]*\))?\s+)?struct\s+(\w+)\s*(<[^{;]*>)?\s*\{(.*?)\n\}"
+
+
+def all_struct_names(*srcs):
+    """every braced struct defined in the given sources (helper types a refactoring introduces included)"""
+    return {m.group(1) for src in srcs for m in re.finditer(STRUCT_RE, src, flags=re.S)}
+
+
+def find_structs(src, names, known=None):
     out = []
-    known = set(STRUCTS_OF_INTEREST)
+    known = set(known or STRUCTS_OF_INTEREST)
     for m in re.finditer(r"(?:pub(?:\([^)]*\))?\s+)?struct\s+(\w+)\s*(<[^{;]*>)?\s*\{(.*?)\n\}", src, flags=re.S):
         name, gen, body = m.group(1), m.group(2), m.group(3)
         if name not in known:
@@ -245,7 +253,8 @@ def main():
         it = strip_comments(open(os.path.join(src_dir, "iter.rs")).read()).split("#[cfg(test)]")[0]
         for w in sorted(WRAPPERS):
             names.struct(w)
-        structs = find_structs(lib, names) + find_structs(entry, names) + find_structs(it, names)
+        known = all_struct_names(lib, entry, it) - {"VerifNode", "VerifWalk"}
+        structs = find_structs(lib, names, known) + find_structs(entry, names, known) + find_structs(it, names, known)
         have = {s[0] for s in structs}
         for need in ("LruCache", "Entry", "EntryPtr", "Iter", "Keys", "Values", "Drain"):
             if need not in have:
